@@ -117,24 +117,34 @@ where
             // initial fill-up
             self.reservoir.push(obj)
         } else if self.i < t {
-            // normal reservoir sampling
-            let j: usize = self.rng.gen_range(0..self.i);
+            // normal reservoir sampling: this is data point number `i + 1`, keep it with
+            // probability `k / (i + 1)`
+            if self.i + 1 == t {
+                // last data point of this phase => calculate first skip
+                self.skip_until = self.i + 1 + self.draw_gap();
+            }
+
+            let j: usize = self.rng.gen_range(0..=self.i);
             if j < self.k {
                 self.reservoir[j] = obj;
             }
         } else if self.i >= self.skip_until {
-            // fast skipping approximation
+            // fast skipping approximation: calculate next skip, then replace a random slot
+            let gap = self.draw_gap();
             let j: usize = self.rng.gen_range(0..self.k);
             self.reservoir[j] = obj;
-
-            // calculate next skip
-            let p = (self.k as f64) / ((self.i + 1) as f64);
-            let u = 1f64 - self.rng.gen_range((0.)..1.); // (0.0, 1.0]
-            let g = (u.ln() / (1. - p).ln()).floor() as usize;
-            self.skip_until = self.i + g;
+            self.skip_until = self.i + 1 + gap;
         }
 
         self.i += 1;
+    }
+
+    /// Number of data points to skip after the current one (number `i + 1`): the next data point
+    /// would be kept with probability `p = k / (i + 2)`, so the gap is geometrically distributed.
+    fn draw_gap(&mut self) -> usize {
+        let p = (self.k as f64) / ((self.i + 2) as f64);
+        let u = 1f64 - self.rng.gen_range((0.)..1.); // (0.0, 1.0]
+        (u.ln() / (1. - p).ln()).floor() as usize
     }
 
     /// Checks if reservoir is empty (i.e. no data points where observed)
